@@ -86,6 +86,7 @@ type Run struct {
 	lastRes          StepResult
 	digests          []string
 	nodeRestartsSeen int
+	simEvery         int // every simEvery-th step that is a message is first simulated (0 = never)
 	maxSteps         int
 }
 
@@ -193,6 +194,9 @@ func paramsDesc(p types.Params) string {
 		p.MaxRequestTimeout, p.MinDepositMultiple, p.MinDeposit, p.ServiceFeeTax, p.SlashFraction, p.ComplaintRetrospect, p.ArbitrationTimeLimit)
 }
 
+// every seventh step that is a message is preceded by its own simulation
+const defaultSimEvery = 7
+
 // NewRun starts a recorded history.
 func NewRun(a *App, name string, seed int64, params types.Params, mon *Mon) *Run {
 	return NewRunAt(a, name, seed, params, mon, startHeight)
@@ -217,7 +221,7 @@ func NewRunOpt(a *App, name string, seed int64, params types.Params, mon *Mon, s
 	w := a.NewWorld(params)
 	pb, err := params.Marshal()
 	must(err)
-	r := &Run{w: w, mon: mon, rng: rand.New(rand.NewSource(seed)), maxSteps: 100000,
+	r := &Run{w: w, mon: mon, rng: rand.New(rand.NewSource(seed)), maxSteps: 100000, simEvery: defaultSimEvery,
 		hist: &History{Name: name, Seed: seed, Setup: HistorySetup{ParamsB64: base64.StdEncoding.EncodeToString(pb), ParamsDesc: paramsDesc(params), StartHeight: start, Commit: commit}}}
 	return r
 }
@@ -346,10 +350,34 @@ func (r *Run) msgBytes(typ, b64, note string, sameTx bool) StepResult {
 		return StepResult{}
 	}
 	msg := decodeMsg(typ, b64)
+	if r.simEvery > 0 && !sameTx && len(r.hist.Steps)%r.simEvery == r.simEvery-1 {
+		// the sender's wallet first asks a node to simulate the transaction (gas estimation)
+		r.simBytes(typ, b64)
+	}
 	st := Step{Kind: "msg", MsgType: typ, MsgB64: b64, Desc: describeMsg(msg), Note: note, SameTx: sameTx}
 	res := r.w.DeliverMsgTx(msg, sameTx)
 	r.after(st, msg, res)
 	return res
+}
+
+// simBytes: a simulate (dry-run) step. A replica of the replay differential plays a node that
+// was never asked to simulate: it skips the execution (the digest list stays aligned).
+func (r *Run) simBytes(typ, b64 string) {
+	msg := decodeMsg(typ, b64)
+	st := Step{Kind: "sim", MsgType: typ, MsgB64: b64, Desc: "simulate: " + describeMsg(msg)}
+	if r.w.a.noNodeRestart {
+		r.hist.Steps = append(r.hist.Steps, st)
+		r.digests = append(r.digests, r.pre.Digest)
+		return
+	}
+	var res StepResult
+	if err := msg.ValidateBasic(); err != nil {
+		res.Rejected, res.Err = true, err.Error()
+	} else {
+		res = r.w.SimulateMsg(msg)
+	}
+	r.mon.stats.Hits["C20/simulated-before-delivery"]++
+	r.after(st, nil, res)
 }
 
 // MsgRaw delivers hand-encoded wire bytes of a message type.
@@ -469,6 +497,7 @@ func Replay(a *App, h *History, mon *Mon) *Run {
 		start = startHeight
 	}
 	r := NewRunOpt(a, h.Name, h.Seed, params, mon, start, h.Setup.Commit)
+	r.simEvery = 0 // the recorded history names its simulate steps itself
 	for _, f := range h.Setup.Funds {
 		var amt int64
 		fmt.Sscan(f.Amount, &amt)
@@ -507,6 +536,8 @@ func Replay(a *App, h *History, mon *Mon) *Run {
 		switch st.Kind {
 		case "msg":
 			r.msgBytes(st.MsgType, st.MsgB64, st.Note, st.SameTx)
+		case "sim":
+			r.simBytes(st.MsgType, st.MsgB64)
 		case "send":
 			r.Send(unhex(st.From), unhex(st.To), st.Amount, st.Note)
 		case "block":
